@@ -187,7 +187,7 @@ Send(acct, scope, mc, k, ans) ==
 (* unless every one is eligible                                              *)
 SendExplicit(acct, scope, mc, S) ==
     /\ Len(sends) < MaxSends
-    /\ S # {} /\ \A c \in S : Exists(c) /\ ~IsChange(c)
+    /\ S # {} /\ \A c \in S : Exists(c)       \* change coins too: chains of unconfirmed spends
     /\ LET E == Eligible(acct, scope, mc)
            a == [acct |-> acct, scope |-> scope, mc |-> mc, sel |-> S, n |-> Len(sends) + 1, elig |-> E]
        IN  IF S \subseteq E
@@ -227,7 +227,7 @@ Next ==
     \/ On("Lock") /\ \E c \in LockCoins : Lock(c) \/ Unlock(c)
     \/ On("Lease") /\ \E c \in LockCoins, id \in 1..2 : Lease(c, id) \/ Release(c, id)
     \/ On("Send") /\ \E acct \in Accts, scope \in Scopes, mc \in 0..2, k \in 1..3, ans \in Answers : Send(acct, scope, mc, k, ans)
-    \/ On("SendExplicit") /\ \E acct \in Accts, scope \in Scopes, mc \in 0..1, S \in SUBSET Base : Cardinality(S) <= 2 /\ SendExplicit(acct, scope, mc, S)
+    \/ On("SendExplicit") /\ \E acct \in Accts, scope \in Scopes, mc \in 0..1, S \in SUBSET Coin : Cardinality(S) <= 2 /\ SendExplicit(acct, scope, mc, S)
     \/ On("FundOwn") /\ \E acct \in Accts, scope \in Scopes, c \in Base : FundOwn(acct, scope, 1, {c})
     \/ On("DryRun") /\ \E acct \in Accts, scope \in Scopes, mc \in 0..2 : DryRun(acct, scope, mc)
     \/ On("Restart") /\ Restart
